@@ -3,7 +3,7 @@ SPEC = {
     "id": "C16",
     "coq_targets": ["theories/Policy/Props.vo", "theories/Policy/Findings.vo", "theories/Policy/Cases.vo"],
     "props": "theories/Policy/Props.v",
-    "harness": [{"bin": "h_policy", "n": {"quick": 200, "thorough": 600},
+    "harness": [{"bin": "h_policy", "n": {"quick": 150, "thorough": 400},
                  "known_bits": {16: "empty_hop_list", 32: "ifaces_without_asn"}}],
     "rule": "exhaustive: every ACL with <= 2 entries over a 6-predicate alphabet x every hop sequence up to length 4 (thorough 6) over 4 hops, the 3-entry ACLs (quick: a sample, thorough: all 3456) x every sequence up to length 4 (thorough 5), and a second alphabet of hops that themselves carry wildcard ISD/AS; every hop-pattern expression to nesting depth 2 over 3 predicates (thorough: x every sequence up to length 6), depth 1 (thorough 2) over 6 predicates, every two-element sequence of depth<=1 expressions, a sample of depth 3, x every hop sequence up to length 4 (thorough 5); random larger patterns/ACLs/hop lists (depth <= 4, <= 5 top-level expressions, <= 12 hops); pattern, ACL and predicate strings from the grammar plus character mutations (incl. Unicode whitespace and non-ASCII), token lists handed to the Pratt parser directly (no EOI, EOI in the middle, empty), redundant-parenthesis/whitespace variants, predicate print/re-parse, Policy::matches, hops_from_path on interface lists; distinct by full case text, a case is non-trivial when its input is non-empty",
     "assumptions": ["hop predicates, hops and ACLs hold values of their Rust field types (u16 ISD/interfaces, AS numbers below 2^48) in the print/parse theorem"],
